@@ -150,7 +150,7 @@ var knownPairs = []pairSet{
 	// KF-C18-04: a Start that overlaps the tail of a Stop re-uses sr.wg and overwrites sr.ctx while the previous
 	// monitor goroutine still reads it; Stop reads currentMode after releasing the lock.
 	{kfSmartLife, []string{fnSRStart}, []string{fnSRLoop, fnSRStop}},
-	{kfSmartLife, []string{fnSRStop}, []string{fnSRApply}},
+	{kfSmartLife, []string{fnSRStop}, []string{fnSRApply, fnSRStop}}, // Stop x Stop: two generations waiting on the one WaitGroup
 }
 
 func in(list []string, s string) bool {
